@@ -159,7 +159,7 @@ fn random_job(ctx: &Ctx, job: usize, iters: u64, max_names: usize, depth: u32) -
     let mut rng = Rng::stream(ctx.seed, "C01.random", job as u64);
     for it in 0..iters {
         let fancy_names = rng.chance(1, 4);
-        let pool: &[&str] = if fancy_names { &gen::FANCY_NAMES } else if rng.chance(1, 10) { &gen::MARK_NAMES } else { &gen::PLAIN_NAMES };
+        let pool: &[&str] = if fancy_names { &gen::FANCY_NAMES } else if rng.chance(1, 10) { gen::rare_pool(rng.next() as u64) } else { &gen::PLAIN_NAMES };
         let k = 1 + rng.usize(max_names.min(pool.len()));
         let mut names: Vec<&str> = pool.to_vec();
         rng.shuffle(&mut names);
